@@ -57,6 +57,29 @@ def run(ctx):
   rt = [n for n in raises if under_missing_if(n)]
   ctx.check(bool(rt), 'C10.before-call', con, 'the failure is a RuntimeError', 'the missing-parameter failure is no longer a RuntimeError', f.loc(), instance='type')
 
+  # the configurable is named in that message by its shortest unambiguous selector (what the user has to write to bind it)
+  from ..lib import format_sites as _fs, expand_expr as _ee
+  named = False
+  for n_ in rt:
+    fs_ = facts[n_.id]
+    ex = _ee(fs_, n_.ast.exc) if n_.ast.exc is not None else None
+    for x_ in (ast.walk(ex) if ex is not None else []):
+      if isinstance(x_, ast.Call) and u(x_.func) == '_REGISTRY.minimal_selector':
+        named = True
+    # ... or computed in the same `if <missing>:` block and used in the message
+    blk = n_.ast
+    while getattr(blk, 'parent', None) is not None and not (isinstance(blk, ast.If) and u(blk.test) == missing):
+      blk = blk.parent
+    if isinstance(blk, ast.If):
+      ms_names = {u(a_.targets[0]) for a_ in walk_local(blk) if isinstance(a_, ast.Assign) and isinstance(a_.value, ast.Call)
+                  and u(a_.value.func) == '_REGISTRY.minimal_selector'}
+      used = {x_.id for st_ in blk.body for x_ in ast.walk(st_) if isinstance(x_, ast.Name) and isinstance(x_.ctx, ast.Load)}
+      if ms_names & used:
+        named = True
+  ctx.check(named or not rt, 'C10.before-call', con, 'the error names the configurable by its minimal selector',
+            'the missing-binding error no longer names the configurable through _REGISTRY.minimal_selector: the name printed may be ambiguous '
+            '(two configurables sharing a bare name) and cannot be used to supply the binding', f.loc(rt[0].ast) if rt else f.loc(), instance='names-minimal')
+
   # ---- C10.vararg
   vg = []
   for n in g.live_nodes():
